@@ -49,6 +49,8 @@ type Config struct {
 	FanHistories int
 	// ClosedAllQueries: closed explorations query all bound pairs / derived prefixes after every transition
 	ClosedAllQueries bool
+	// ClosedNeighbours: (thorough) bounds also range over one neighbour of every universe key
+	ClosedNeighbours bool
 	LongOps          int
 }
 
